@@ -144,6 +144,11 @@ fn run_case<C: Suite>(c: &Case) -> Outcome {
                     );
                     continue;
                 }
+                match (&r, &fc::keys::dkg::part2::<C>(runs[*own].sp1[&me].clone(), &r1)) {
+                    (Ok(a), Ok(b)) if a == b => o.count("entry_points_agree", 1),
+                    (Err(a), Err(b)) if a == b => o.count("entry_points_agree", 1),
+                    (x, y) => o.fail(format!("{tag}/entry-points-diverge"), format!("{ctx}: round-one filling {f1:?}: the crate's part2 and frost_core::keys::dkg::part2 end differently (ok={} / ok={})", x.is_ok(), y.is_ok())),
+                }
                 let Ok((sp2, out2)) = r else {
                     o.count("part2_rejected", 1);
                     continue;
@@ -214,6 +219,17 @@ fn run_case<C: Suite>(c: &Case) -> Outcome {
                         if o.findings.len() > 8 {
                             return o;
                         }
+                    }
+                    // a peer may drive the same step through frost-core's generic entry point instead of the
+                    // ciphersuite crate's: on the same deliveries both must end identically
+                    let rg = fc::keys::dkg::part3::<C>(&sp2, &r1, &r2);
+                    match (&r, &rg) {
+                        (Ok(a), Ok(b)) if a == b => o.count("entry_points_agree", 1),
+                        (Err(a), Err(b)) if a == b => o.count("entry_points_agree", 1),
+                        _ => o.fail(
+                            format!("{tag}/entry-points-diverge"),
+                            format!("{ctx}: round one {f1:?}: the crate's part3 and frost_core::keys::dkg::part3 end differently on the same deliveries (ok={} / ok={})", r.is_ok(), rg.is_ok()),
+                        ),
                     }
                     match r {
                         Ok((kp, pkp)) => {
